@@ -465,6 +465,16 @@ class FileOutput:
         self.fd = None
 
 
+def padBrackets(inner):
+    # keep the brackets of a nested set or map from fusing with the
+    # enclosing ones (<<<<>>>> does not scan as a set holding a set)
+    if inner.startswith("<"):
+        inner = " " + inner
+    if inner.endswith(">"):
+        inner = inner + " "
+    return inner
+
+
 class Value:
     def __init__(self):
         self.info = ""
@@ -1082,16 +1092,14 @@ class ValueMap(Value):
         return str(self) < str(other)
 
     def __repr__(self):
-        return (
-            "<<<"
-            + ", ".join(
+        return "<<<" + padBrackets(
+            ", ".join(
                 [
                     f"{key} => {self.value[key]}"
                     for key in self.getSortedKeys()
                 ]
             )
-            + ">>>"
-        )
+        ) + ">>>"
 
     def addMap(self, map_):
         for key, value in map_.items():
@@ -1427,11 +1435,9 @@ class ValueSet(Value):
         return str(self) < str(other)
 
     def __repr__(self):
-        return (
-            "<<"
-            + ", ".join([str(item) for item in self.getSortedItems()])
-            + ">>"
-        )
+        return "<<" + padBrackets(
+            ", ".join([str(item) for item in self.getSortedItems()])
+        ) + ">>"
 
     def addItem(self, item):
         self.value.add(item)
